@@ -183,7 +183,9 @@ fn append_body(s: &mut Src, sh: &Shape, idx_off: u64, mlog: u64, mterms: &[u64])
         let mut k = 0;
         while k < r.raft_log.unstable.entries.len() {
             let e = &r.raft_log.unstable.entries[k];
-            if e.index > mindex && e.index <= mindex + n {
+            // (only what was really appended: a message entry whose (index, term) matches a local
+            // entry is not copied, and the harness does not constrain its type to equal the local one)
+            if e.index >= c && e.index <= mindex + n {
                 assert!(e.entry_type == ety[(e.index - mindex - 1) as usize], "entry type altered");
             }
             k += 1;
